@@ -234,29 +234,36 @@ inductive CbOutcome
   | ok (p : ProxyS) (m : MuxL) (e : ESock)
   | died
 
-/-- The tail of `Proxy.callback` (ssnet.py:330-340); order of the two symmetric clean-ups and of
-the two `nowrite`s follows `wrap1`/`wrap2`. -/
-def ProxyS.cleanup (p : ProxyS) (m : MuxL) (e : ESock) (shutErr : Bool) : ProxyS × MuxL × ESock :=
-  let dropSock (p : ProxyS) : ProxyS :=
-    if !p.sw.buf.isEmpty && p.mw.shutW then { p with sw := { p.sw with buf := [] }.noread } else p
-  let dropMux (pm : ProxyS × MuxL) : ProxyS × MuxL :=
-    let (p, m) := pm
-    if !p.mw.buf.isEmpty && p.sw.shutW then
-      let (w, m1) := MuxW.noread { p.mw with buf := [] } m
-      ({ p with mw := w }, m1)
-    else (p, m)
-  let (p1, m1) := if p.sockFirst then dropMux (dropSock p, m) else
-    let (q, m') := dropMux (p, m); (dropSock q, m')
-  if p1.sw.shutR && p1.mw.shutR && p1.sw.buf.isEmpty && p1.mw.buf.isEmpty then
-    if p1.sockFirst then
-      let x := p1.sw.nowrite e shutErr
-      let (w, m2) := p1.mw.nowrite m1
-      ({ p1 with sw := x.1, mw := w, ok := false }, m2, x.2)
+/-- `if wrapS.buf and wrapM.shut_write: wrapS.buf = []; wrapS.noread()` (sock side). -/
+def ProxyS.dropSock (p : ProxyS) : ProxyS :=
+  if !p.sw.buf.isEmpty && p.mw.shutW then { p with sw := { p.sw with buf := [] }.noread } else p
+
+/-- `if wrapM.buf and wrapS.shut_write: wrapM.buf = []; wrapM.noread()` (mux side: tells the peer
+to stop sending). -/
+def ProxyS.dropMux (p : ProxyS) (m : MuxL) : ProxyS × MuxL :=
+  if !p.mw.buf.isEmpty && p.sw.shutW then
+    let r := MuxW.noread { p.mw with buf := [] } m
+    ({ p with mw := r.1 }, r.2)
+  else (p, m)
+
+/-- `if both shut_read and both bufs empty: ok = False; wrap1.nowrite(); wrap2.nowrite()`. -/
+def ProxyS.finish (p : ProxyS) (m : MuxL) (e : ESock) (shutErr : Bool) : ProxyS × MuxL × ESock :=
+  if p.sw.shutR && p.mw.shutR && p.sw.buf.isEmpty && p.mw.buf.isEmpty then
+    if p.sockFirst then
+      let x := p.sw.nowrite e shutErr
+      let r := p.mw.nowrite m
+      ({ p with sw := x.1, mw := r.1, ok := false }, r.2, x.2)
     else
-      let (w, m2) := p1.mw.nowrite m1
-      let x := p1.sw.nowrite e shutErr
-      ({ p1 with sw := x.1, mw := w, ok := false }, m2, x.2)
-  else (p1, m1, e)
+      let r := p.mw.nowrite m
+      let x := p.sw.nowrite e shutErr
+      ({ p with sw := x.1, mw := r.1, ok := false }, r.2, x.2)
+  else (p, m, e)
+
+/-- The tail of `Proxy.callback` (ssnet.py:330-340); the order of the two symmetric clean-ups
+follows `wrap1`/`wrap2`. -/
+def ProxyS.cleanup (p : ProxyS) (m : MuxL) (e : ESock) (shutErr : Bool) : ProxyS × MuxL × ESock :=
+  let pm := if p.sockFirst then p.dropSock.dropMux m else ((p.dropMux m).1.dropSock, (p.dropMux m).2)
+  pm.1.finish pm.2 e shutErr
 
 /-- `Proxy.callback` (ssnet.py:323-340). `MuxWrapper.try_connect` and `MuxWrapper.fill` do
 nothing (no `connect_to`; `uread` is `b''` only when `shut_read` is already set). -/
